@@ -221,7 +221,7 @@ def shrink(case: dict, want_spec: bool) -> dict:
     f = lambda c: still_bad(c, want_spec)  # noqa: E731
     if kind == "incr1":
         cur = dict(case)
-        for _ in range(6):
+        for _ in range(80):
             progressed = False
             cands = []
             a = cur["a"]
@@ -238,6 +238,7 @@ def shrink(case: dict, want_spec: bool) -> dict:
             for c in cands:
                 if c != cur and f(c):
                     cur, progressed = c, True
+                    break               # candidates were built from the old `cur`: rebuild them
             if not progressed:
                 break
         return cur
